@@ -101,7 +101,8 @@ class DstWorld(World):
 
     def pdu_conf(self, st, **over):
         c = self.c
-        kw = dict(src=(c["idv_s"], c["idw_s"]), dst=(c["idv_d"], c["idw_d"]), seq=(st.seq, c["seqw"]), mode=c["mode"], crc=c["crc_flag"])
+        kw = dict(src=(c["idv_s"], c["idw_s"]), dst=(c["idv_d"], c["idw_d"]), seq=(st.seq, c["seqw"]), mode=c["mode"], crc=c["crc_flag"],
+                  large=bool(self.cfg.get("large_pdus")))  # large_pdus: the sender uses 64 bit file-size-sensitive fields (also for a small file)
         kw.update(over)
         return pdus.conf(**kw)
 
